@@ -447,9 +447,10 @@ def agrees(exp, obs, strict):
         return exp[1] == obs[1]
     if exp[1] != obs[1]:
         return False
-    if exp[1] == "NameError" and exp[2].endswith("' is not defined") and exp[2].startswith("'"):
-        # strict_undefined: the variable must be named
-        return exp[2].split("'")[1] in _quoted(obs[2])
+    if len(exp) > 3:
+        # strict_undefined: a NameError naming one of the variables that cannot be resolved in that callable
+        # (which of several is named first is not fixed by the statement)
+        return any(n in exp[3] for n in _quoted(obs[2]))
     return True
 
 
@@ -472,6 +473,23 @@ def _winner(al, res):
         if core_.startswith(tag):
             return tag
     return "builtin" if core_ else "empty"
+
+
+def _stmt_symptom(al, p, exp, obs):
+    """footprint of a statement-form failure: which kind of name a NameError complains about, else the two result classes"""
+    if obs[0] == "exc" and obs[1] == "NameError":
+        q = _quoted(obs[2])
+        b = "os" if p["form"] in ("import", "import.dotted") else al.name
+        if q and q[0] == b:
+            role = "bound-name"
+        elif q and q[0] in (al.name2, al.name2 + "base"):
+            role = "read-name"
+        elif q and q[0] in ("p", "q", "va", "k", "kw"):
+            role = "parameter"
+        else:
+            role = "other"
+        return "NameError(%s)" % role
+    return "exp=%s:obs=%s" % (_winner(al, exp), _winner(al, obs))
 
 
 def check_program(al, fam, p, strict, st):
@@ -504,7 +522,7 @@ def check_program(al, fam, p, strict, st):
         if fam == "res":
             sig = "res:%s:exp=%s:obs=%s" % (SITE_KIND[p["site"]], we, _winner(al, o_))
         else:
-            sig = "stmt:%s:exp=%s:obs=%s" % (p["form"], we, _winner(al, o_))
+            sig = "stmt:%s:%s" % (p["form"], _stmt_symptom(al, p, e_, o_))
         if what != "render_unicode":
             sig += ":" + what
         st.violation(sig, case, "reference interpreter (%s)" % what, expected=list(e_), observed=list(o_))
@@ -645,11 +663,9 @@ def check_reserved(c, st):
     if must:
         if obs[0] != "NameConflictError":
             st.violation(
-                "reserved:%s:%s:%s:%s" % (c["kind"], c["name"], "loop=" + c["cfg"], "no-NameConflictError(" + obs[0] + ")")
-                if c["name"] == "loop"
-                else "reserved:%s:%s:%s:no-NameConflictError(%s)" % (c["kind"], c["name"], what.split("@")[0], obs[0]),
+                "reserved:%s:%s:cfg=%s:no-NameConflictError" % (c["kind"], c["name"], c["cfg"]),
                 case,
-                "reserved name must raise NameConflictError",
+                "reserved name must raise NameConflictError (%s)" % what,
                 expected="NameConflictError",
                 observed=list(obs),
             )
